@@ -450,6 +450,8 @@ pub struct SimWriter {
     /// every injected failure that was actually returned
     pub failures: Vec<WFailure>,
     pub interrupted: usize,
+    /// bytes the sink held at each delivered Interrupted
+    pub interrupts_at: Vec<usize>,
     taken: bool,
 }
 
@@ -473,6 +475,7 @@ pub struct SinkState {
     pub flushes: usize,
     pub failures: Vec<WFailure>,
     pub interrupted: usize,
+    pub interrupts_at: Vec<usize>,
 }
 
 thread_local! {
@@ -495,12 +498,12 @@ impl Drop for SimWriter {
 
 impl SimWriter {
     pub fn take_state(&mut self) -> SinkState {
-        let st = SinkState { out: std::mem::take(&mut self.out), snapshots: std::mem::take(&mut self.snapshots), partial_writes: self.partial_writes, write_calls: self.write_calls, flushes: self.flushes, failures: std::mem::take(&mut self.failures), interrupted: self.interrupted };
+        let st = SinkState { out: std::mem::take(&mut self.out), snapshots: std::mem::take(&mut self.snapshots), partial_writes: self.partial_writes, write_calls: self.write_calls, flushes: self.flushes, failures: std::mem::take(&mut self.failures), interrupted: self.interrupted, interrupts_at: std::mem::take(&mut self.interrupts_at) };
         self.taken = true;
         st
     }
     pub fn new(script: WScript) -> Self {
-        SimWriter { out: Vec::new(), script, idx: 0, write_calls: 0, partial_writes: 0, flushes: 0, snapshots: Vec::new(), failures: Vec::new(), interrupted: 0, taken: false }
+        SimWriter { out: Vec::new(), script, idx: 0, write_calls: 0, partial_writes: 0, flushes: 0, snapshots: Vec::new(), failures: Vec::new(), interrupted: 0, interrupts_at: Vec::new(), taken: false }
     }
 }
 
@@ -515,6 +518,7 @@ impl Write for SimWriter {
             match f {
                 WFault::Interrupted => {
                     self.interrupted += 1;
+                    self.interrupts_at.push(self.out.len());
                     return Err(io::Error::new(io::ErrorKind::Interrupted, "sim: interrupted"));
                 }
                 WFault::Hard(k) => {
